@@ -27,6 +27,60 @@ func (o verifOp) Operation() (interface{}, error) {
 	return o.id, nil
 }
 
+
+// verifSlowOp blocks inside Operation until released.
+type verifSlowOp struct {
+	started chan struct{}
+	release chan struct{}
+	v       int
+}
+
+func (o verifSlowOp) Operation() (interface{}, error) {
+	close(o.started)
+	<-o.release
+	return o.v, nil
+}
+
+// verifStopInFlight: Stop arrives while the only worker is inside an operation; the operation was submitted, so its
+// result must still be delivered exactly once, Wait must return and the result channel must be closed.
+func verifStopInFlight(buffer int) error {
+	queue := make(chan Operator, 1)
+	p := NewProcessor(queue, buffer, 1)
+	op := verifSlowOp{started: make(chan struct{}), release: make(chan struct{}), v: 42}
+	p.Process(op)
+	<-op.started
+	p.Stop()
+	close(op.release)
+	type res struct {
+		v   interface{}
+		err error
+	}
+	got := make(chan res, 1)
+	go func() {
+		v, err := p.Result()
+		got <- res{v, err}
+	}()
+	select {
+	case r := <-got:
+		if r.err != nil || r.v != 42 {
+			return fmt.Errorf("buffer %d: Stop while an operation was running: its result was lost: got (%v, %v), want (42, <nil>)", buffer, r.v, r.err)
+		}
+	case <-time.After(5 * time.Second):
+		return fmt.Errorf("buffer %d: Stop while an operation was running: no result within 5 s", buffer)
+	}
+	done := make(chan struct{})
+	go func() { p.Wait(); close(done) }()
+	select {
+	case <-done:
+	case <-time.After(5 * time.Second):
+		return fmt.Errorf("buffer %d: Wait did not return after Stop", buffer)
+	}
+	if _, ok := <-p.out; ok {
+		return fmt.Errorf("buffer %d: more than one result for one operation", buffer)
+	}
+	return nil
+}
+
 // verifProcessorRound submits n operations to a fresh processor, drains the results while submitting, closes the
 // queue and waits; it reports anything but "exactly one result per operation, Wait returns, out closed once".
 func verifProcessorRound(threads, buffer, n int, failEvery int) (err error) {
@@ -173,5 +227,15 @@ func TestVerifBounded_C19_Workers(t *testing.T) {
 			nontrivial++
 		}
 	}
-	fmt.Printf("BOUNDED name=C19.workers cases=%d nontrivial=%d exhaustive=false domain=\"stress, not an enumeration of schedules: %d processor rounds (1..6 workers, buffer 0..3, 0..22 operations, none/every third/all failing) checked for exactly one result per operation, Wait returning and the result channel being closed after Close; %d Map calls (1..40 elements, 1..5 threads, chunk limit 1..9) checked for one result per chunk and chunks partitioning the input; GOMAXPROCS 8\"\n", cases, nontrivial, rounds, rounds/3)
+	for rep := 0; rep < 5; rep++ {
+		for _, buffer := range []int{0, 1, 4} {
+			cases++
+			if err := verifStopInFlight(buffer); err != nil {
+				t.Error(err)
+			} else {
+				nontrivial++
+			}
+		}
+	}
+	fmt.Printf("BOUNDED name=C19.workers cases=%d nontrivial=%d exhaustive=false domain=\"stress, not an enumeration of schedules: %d processor rounds (1..6 workers, buffer 0..3, 0..22 operations, none/every third/all failing) checked for exactly one result per operation, Wait returning and the result channel being closed after Close; %d Map calls (1..40 elements, 1..5 threads, chunk limit 1..9) checked for one result per chunk and chunks partitioning the input; 15 rounds of Stop arriving while the only worker is inside an operation (buffer 0, 1, 4: the result must still be delivered once); GOMAXPROCS 8\"\n", cases, nontrivial, rounds, rounds/3)
 }
